@@ -94,6 +94,40 @@ type ExecOpts struct {
 	Stdin   *string       // fed through a pipe (a non-seekable input), nil: no stdin
 }
 
+// ExecPty runs the real binary with a pseudo-terminal as standard output (through script(1)); the CR LF
+// line ends the terminal layer produces are turned back into LF. ok is false when script is not installed.
+func ExecPty(hr string, args []string, o ExecOpts) (res Result, ok bool) {
+	sp, err := exec.LookPath("script")
+	if err != nil {
+		return Result{}, false
+	}
+	q := func(s string) string { return "'" + strings.ReplaceAll(s, "'", `'\''`) + "'" }
+	line := q(hr)
+	for _, a := range args {
+		line += " " + q(a)
+	}
+	ctx, cancel := context.WithTimeout(context.Background(), 60*time.Second)
+	defer cancel()
+	cmd := exec.CommandContext(ctx, sp, "-qec", line, "/dev/null")
+	cmd.Dir = o.Dir
+	cmd.Env = BaseEnv()
+	for k, v := range o.Env {
+		cmd.Env = append(cmd.Env, k+"="+v)
+	}
+	var out bytes.Buffer
+	cmd.Stdout = &out
+	cmd.Stderr = &out
+	err = cmd.Run()
+	res.Out = strings.ReplaceAll(out.String(), "\r\n", "\n")
+	if ee, isExit := err.(*exec.ExitError); isExit {
+		res.Exit = ee.ExitCode()
+	} else if err != nil {
+		return res, false
+	}
+	res.Count = 1
+	return res, true
+}
+
 // Exec runs the real binary once.
 func Exec(hr string, args []string, o ExecOpts) Result {
 	if o.Timeout == 0 {
